@@ -8,7 +8,8 @@
    Through the model of Python's operator dispatch (C14_op_ theorems): a * b, a / b, a + b, a - b, a * k on fixed-point operands
    and the comparisons <, <=, == between fixed-point values and < against a plain integer compare the represented numbers
    (same positive scale on both sides) -- for all representations whenever error checking is on.
-   NOT proved in Coq: the conversion of the other operand kinds (secret int, boolean, float on either side),
+   and + / * / < with a plain or secret integer on the right (the integer k stands for the representation k * 2^r).
+   NOT proved in Coq: the conversion of boolean and float operands and the reflected forms,
    floor division / modulo on the represented numbers, powers and val(); they are decided on the real code by the differential
    check against an exact scaled-integer reference over an operator x operand-kind matrix (fixed-point, fractional and negative
    values, secret int, boolean, int, float; both orders) and random programs, and by the trace correspondence of the
@@ -68,6 +69,15 @@ Theorem C14_op_eq : forall o o' f g, returns (pyop c OEq (PFxp o f) (PFxp o' g))
 Proof. exact (op_fx_eq ins ig (field_ok_prime p Hp) c s sg I). Qed.
 Theorem C14_op_lt_int : forall o f k, returns (pyop c OLt (PFxp o f) (PInt k)) s sg (isb (fun r => r = b2z (v f <? k * Api.R c))).
 Proof. exact (op_fx_lt_int ins ig c s sg I Chk). Qed.
+(* mixed operand classes: an integer k / a secret integer y stands for the number k / y, i.e. the representation k * 2^r *)
+Theorem C14_op_add_int : forall o f k, returns (pyop c OAdd (PFxp o f) (PInt k)) s sg (isfx (fun r => r = v f + k * Api.R c)).
+Proof. exact (op_fx_add_int ins ig c s sg). Qed.
+Theorem C14_op_add_secret_int : forall o f y, returns (pyop c OAdd (PFxp o f) (PLC y)) s sg (isfx (fun r => r = v f + v y * Api.R c)).
+Proof. exact (op_fx_add_lc ins ig c s sg). Qed.
+Theorem C14_op_mul_secret_int : forall o f y, returns (pyop c OMul (PFxp o f) (PLC y)) s sg (isfx (fun r => r = v f * v y)).
+Proof. exact (op_fx_mul_lc ins ig c s sg I). Qed.
+Theorem C14_op_lt_secret_int : forall o f y, returns (pyop c OLt (PFxp o f) (PLC y)) s sg (isb (fun r => r = b2z (v f <? v y * Api.R c))).
+Proof. exact (op_fx_lt_lc ins ig c s sg I Chk). Qed.
 End C14_op.
 
 (* non-vacuity: 2.5 * -1.75 and 2.5 / -1.75 at resolution 3 (representations 20 and -14): floor(-280/8) = -35, floor(-35*8/20) = -14 *)
@@ -78,6 +88,11 @@ Example C14_example :
 Proof. vm_compute. split; reflexivity. Qed.
 
 Print Assumptions C14_product.
+Print Assumptions C14_op_add_int.
+Print Assumptions C14_op_add_secret_int.
+Print Assumptions C14_op_mul_secret_int.
+Print Assumptions C14_op_lt_secret_int.
+
 Print Assumptions C14_op_mul.
 Print Assumptions C14_op_truediv.
 Print Assumptions C14_op_add.
